@@ -160,7 +160,9 @@ P_Connect(c, h, dh, dp, lo, res) ==
                                      must |-> must0, late |-> FALSE, arrived |-> FALSE, accd |-> FALSE]]
        \* clause OkWithoutAccept: a connect succeeds only if an accept returned a stream for it
        \* clause ErrorKind: a failing connect fails with ConnectionRefused
+       \* clause SpuriousRefusal: a connect is refused only in the refusal cases the statement lists
        /\ bad' = bad \cup Flag(res # "ok", "OkWithoutAccept") \cup Flag(res \in {"pending", "refused", "ok"}, "ErrorKind")
+                     \cup Flag(res = "refused" => must0, "SpuriousRefusal")
        /\ tainted' = [tainted EXCEPT ![c] = Explicit(h, dh) \/ Explicit(dh, h)]
     /\ quiet' = FALSE
     /\ UNCHANGED <<lsn, addr, acc, rd, eof, wclosed, hv, aborted, expl>>
@@ -178,6 +180,9 @@ P_Poll(c, res, local, peer) ==
                [] res = "refused" ->
                      \* clause RefusedThoughAccepted: "completes successfully exactly when a listener accepts it"
                      Flag(~a.accd, "RefusedThoughAccepted")
+                     \* clause SpuriousRefusal: a request that reached a bound, matching listener which stays
+                     \* bound, over a direction that is not partitioned, to an address a host owns, is not refused
+                     \cup Flag(a.must, "SpuriousRefusal")
                [] res = "pending" ->
                      \* clause Hang: refused "instead of hanging"; an accepted connect completes
                      Flag(~a.accd /\ ~(a.must /\ a.late), "Hang")
@@ -356,6 +361,7 @@ EofInv        == \A k \in CS : eof[k] => (rd[k] = acc[k] /\ wclosed[k])
 OkWithoutAccept       == "OkWithoutAccept" \notin bad
 RefusedThoughAccepted == "RefusedThoughAccepted" \notin bad
 Hang          == "Hang" \notin bad
+SpuriousRefusal == "SpuriousRefusal" \notin bad
 AcceptHang    == "AcceptHang" \notin bad
 PhantomAccept == "PhantomAccept" \notin bad
 AcceptedDead  == "AcceptedDead" \notin bad
